@@ -129,7 +129,8 @@ func (hs *ssDHClientHandshake) parseServerHandshake(resp []byte) (int, []byte, e
 			return 0, nil, ErrInvalidHandshake
 		}
 		return 0, nil, errMarkNotFoundYet
-	} else if len(resp) < pos+2*macLength {
+	} else if len(resp) < uniformdh.Size+pos+2*macLength {
+		// pos is relative to the end of the public key at this point.
 		// Didn't receive the full M_S.
 		return 0, nil, errMarkNotFoundYet
 	}
